@@ -123,7 +123,7 @@ Definition poll_start (i : nat) (a : awaiter) (s : ast) : ast :=
     if wbit s then
       (* value.poll = Pending; the listener lives until poll returns *)
       if l then set_aw (set_vq s (vq s ++ [(i, false)])) i (mkA true (ALoaded GListen) false n)
-      else set_aw s i (mkA true AParked false n)
+      else set_aw s i (mkA true AParked true n)   (* (false, Pending): wakes itself and polls again *)
     else if l then
       set_aw (set_readers s (S (readers s)) (cwoken s)) i (mkA true (ALoaded GGuard) false n)
     else
